@@ -56,6 +56,23 @@ def run_format(ctx: Ctx, rt: RT, prop, fmt, expected_tags):
                                 nontrivial_key=(case, "precision"))
                         if mp and pattern == "two":
                             docs[target] = doc_signature(I, doc)
+            if fmt == "csv" and config == "abs-molar-K":
+                # a separator other than the default: the metadata lines and the data table are written and read with the caller's separator
+                for oc, cons, orig, iso, doc in rt.roundtrip(w, r, kind, config, targets[0], path_ext=ext, material_props=True,
+                                                             writer_kwargs={"separator": ";"}, reader_kwargs={"separator": ";"}):
+                    n += 1
+                    case = f"{fmt}|{kind}|{config}|{targets[0]}|separator=';'"
+                    if oc.kind != "ok":
+                        ctx.ob(False, Finding(f"{prop}.RT-roundtrip", rf.where, f"{fmt}|{kind}|separator|raises:{oc.exc.name}",
+                                              f"{case}: export followed by import raises {oc.exc.name}"
+                                              f"{' (Python fault: ' + oc.exc.msg + ')' if oc.exc.fault else ': ' + str(oc.exc.msg)[:120]}"),
+                               nontrivial_key=(case, "raise"))
+                        continue
+                    diffs, _tags = compare(I, kind, cons, orig, iso)
+                    ctx.ob(not diffs, None if not diffs else Finding(
+                        f"{prop}.RT-roundtrip", rf.where, f"{fmt}|{kind}|separator|" + ",".join(sorted({d[0] for d in diffs})),
+                        f"{case}: the re-imported isotherm differs from the exported one: " + "; ".join(d[1] for d in diffs[:5])),
+                        nontrivial_key=(case, tuple(c for l, c in oc.decisions)))
             if len(docs) == 2:
                 a, b = list(docs.values())
                 ctx.ob(a == b, Finding(f"{prop}.RT-targets", wf.where, f"{fmt}|{kind}|string-vs-file",
